@@ -2,10 +2,12 @@ package c04
 
 import (
 	"fmt"
+	"os"
 	"runtime"
 	"sync"
 	"sync/atomic"
 	"testing"
+	"time"
 
 	"gopkg.in/typ.v4/sync2"
 	"pgregory.net/rapid"
@@ -63,6 +65,9 @@ func RunRounds(c RCase) pbt.Outcome {
 					if spins > 2000 {
 						runtime.Gosched()
 					}
+					if spins > 20000 {
+						time.Sleep(20 * time.Microsecond) // oversubscribed machine: give the core away
+					}
 				}
 				rs := recs[w][:0]
 				for oi, op := range c.Progs[w] {
@@ -101,12 +106,26 @@ func RunRounds(c RCase) pbt.Outcome {
 	overlapped := 0
 	var hist []Rec
 	var freshKeys []int
+	t0 := time.Now()
+	budget := 4 * time.Second
+	if os.Getenv("VERIF_TIER") == "thorough" {
+		budget = 30 * time.Second
+	}
+	roundsDone, cut := 0, false
 	for r := 1; r <= c.Rounds; r++ {
+		if r%128 == 0 && time.Since(t0) > budget {
+			cut = true // an oversubscribed machine: the rounds judged so far stand, elapsed time is never a verdict
+			break
+		}
+		roundsDone = r
 		hist = hist[:0]
 		phase.Store(int64(r))
 		for spins := 0; done.Load() < int64(r*W); spins++ {
 			if spins > 200 {
 				runtime.Gosched()
+			}
+			if spins > 20000 {
+				time.Sleep(20 * time.Microsecond)
 			}
 		}
 		if stop.Load() {
@@ -181,7 +200,10 @@ func RunRounds(c RCase) pbt.Outcome {
 		}
 	}
 	finish()
-	out := pbt.Outcome{Evals: c.Rounds, NonTrivial: overlapped > 0, Labels: []string{"churn=" + c.Churn, fmt.Sprintf("goroutines=%d", W)}}
+	out := pbt.Outcome{Evals: roundsDone, NonTrivial: overlapped > 0, Labels: []string{"churn=" + c.Churn, fmt.Sprintf("goroutines=%d", W)}}
+	if cut {
+		out.Labels = append(out.Labels, "case-cut-short-by-its-wall-clock-budget")
+	}
 	for l := range layouts {
 		out.Labels = append(out.Labels, l)
 	}
